@@ -1,4 +1,1340 @@
+//! C08 — in-circuit Merkle (MMCS) opening verification agrees with the native scheme.
+//!
+//! Technique: exhaustive single-fault enumeration over an explicit finite list of shapes.
+//!
+//! * shape  = (scheme, dimension vector, cap height); scheme ∈ {arity-2 | arity-4} ×
+//!            {base | extension leaves} × {non-hiding | hiding(SALT=4) | hiding(SALT=3)}
+//!            (arity-4 × hiding has no API in the repository: counted as unsupported).
+//! * per shape: commit natively (p3 `MerkleTreeMmcs` / `MerkleTreeHidingMmcs` / `ExtensionMmcs`),
+//!   build the verification circuit ONCE with the repository's
+//!   `p3_recursion::pcs::verify_batch_circuit*`, then for EVERY leaf index: the honest opening
+//!   and every single-element fault (each opened base coefficient +1, each salt word +1, each
+//!   sibling digest word +1, each index bit flipped, each cap word +1).
+//! * oracle: native `Mmcs::verify_batch` verdict (Ok / Err) == circuit verdict (runner `run()`
+//!   Ok / Err, sibling digests supplied through the repository's own
+//!   `set_*fri_mmcs_private_data*` functions). A disagreement in either direction is a violation.
+//!
+//! Additionally the cap multiplexer is driven directly through the hook
+//! `p3_recursion::pcs::mmcs::verif_select_cap_entry` (all cap heights 0..=3, every index, the
+//! right and every wrong expected entry).
+
+use std::collections::BTreeMap;
+use std::sync::Mutex;
+use std::sync::atomic::{AtomicBool, AtomicU64, Ordering};
+
+use p3_circuit::ops::{Poseidon2Config, generate_poseidon2_trace, generate_recompose_trace};
+use p3_circuit::{Circuit, CircuitBuilder, CircuitBuilderError, CircuitRunner, NonPrimitiveOpId};
+use p3_commit::{BatchOpening, BatchOpeningRef, ExtensionMmcs, Mmcs};
+use p3_field::extension::BinomialExtensionField;
+use p3_field::{BasedVectorSpace, Field, PrimeCharacteristicRing, PrimeField64};
+use p3_fri::{FriProof, QueryProof};
+use p3_koala_bear::{
+    KoalaBear, Poseidon2KoalaBear, default_koalabear_poseidon2_16, default_koalabear_poseidon2_32,
+};
+use p3_matrix::Dimensions;
+use p3_matrix::dense::RowMajorMatrix;
+use p3_merkle_tree::{MerkleTreeHidingMmcs, MerkleTreeMmcs};
+use p3_poseidon2_circuit_air::{KoalaBearD4Width16, KoalaBearD4Width32};
+use p3_recursion::Target;
+use p3_recursion::pcs::{
+    set_fri_mmcs_private_data, set_fri_mmcs_private_data_arity4, set_salted_fri_mmcs_private_data,
+    verify_batch_circuit, verify_batch_circuit_arity4, verify_batch_circuit_from_extension_opened,
+    verify_batch_circuit_from_extension_opened_arity4,
+};
+use p3_symmetric::{MerkleCap, PaddingFreeSponge, TruncatedPermutation};
+use p3_util::log2_ceil_usize;
+use rand::SeedableRng;
+use rand::rngs::SmallRng;
+use serde::{Deserialize, Serialize};
+use vpcore::rayon::prelude::*;
+use vpcore::serde_json::{Value, json};
+use vpcore::{Ctx, Histo, Report, finish, machinery_error, quiet_catch};
+
+// ---------------------------------------------------------------------------------------
+// field / hash configuration (identical to the repository's tests)
+
+type F = KoalaBear;
+const D: usize = 4;
+type CF = BinomialExtensionField<F, D>;
+const DIGEST: usize = 8;
+type Digest = [F; DIGEST];
+type PF = <F as Field>::Packing;
+
+type Perm16 = Poseidon2KoalaBear<16>;
+type Hash16 = PaddingFreeSponge<Perm16, 16, 8, 8>;
+type Compress2 = TruncatedPermutation<Perm16, 2, 8, 16>;
+type Mmcs2 = MerkleTreeMmcs<PF, PF, Hash16, Compress2, 2, DIGEST>;
+type HMmcs2<const S: usize> =
+    MerkleTreeHidingMmcs<PF, PF, Hash16, Compress2, SmallRng, 2, DIGEST, S>;
+
+type Perm32 = Poseidon2KoalaBear<32>;
+type Hash32 = PaddingFreeSponge<Perm32, 32, 24, 8>;
+type Compress4 = TruncatedPermutation<Perm32, 4, 8, 32>;
+type Mmcs4 = MerkleTreeMmcs<F, F, Hash32, Compress4, 4, DIGEST>;
+
+type Proof<S> = <<S as Scheme>::IM as Mmcs<F>>::Proof;
+
+/// One native MMCS flavour together with the repository functions that verify it in-circuit.
+trait Scheme: 'static {
+    type IM: Mmcs<F, Commitment = MerkleCap<F, Digest>>;
+    const SALT: usize;
+    fn inner(cap_height: usize, seed: u64) -> Self::IM;
+    fn split(p: &Proof<Self>) -> (Vec<Vec<F>>, Vec<Digest>);
+    fn join(salts: &[Vec<F>], siblings: &[Digest]) -> Proof<Self>;
+    fn perm_config() -> Poseidon2Config;
+    fn enable(b: &mut CircuitBuilder<CF>);
+    #[allow(clippy::too_many_arguments)]
+    fn verify_circuit(
+        b: &mut CircuitBuilder<CF>,
+        cap: &[Vec<Target>],
+        dims: &[Dimensions],
+        bits: &[Target],
+        opened: &[Vec<Target>],
+        salts: &[Vec<Target>],
+        ext: bool,
+    ) -> Result<Vec<NonPrimitiveOpId>, CircuitBuilderError>;
+    /// Sibling digests → NPO private data, through the repository's public setter. The setter
+    /// takes a FRI proof; the opening is wrapped as the single input-batch opening of a single
+    /// query (the setters only read `opening_proof`).
+    fn set_private(
+        r: &mut CircuitRunner<'_, CF>,
+        op_ids: &[NonPrimitiveOpId],
+        salts: &[Vec<F>],
+        siblings: &[Digest],
+    ) -> Result<(), &'static str>;
+}
+
+fn wrap_fri<IM: Mmcs<F>>(
+    proof: IM::Proof,
+) -> FriProof<CF, ExtensionMmcs<F, CF, IM>, F, Vec<BatchOpening<F, IM>>> {
+    FriProof {
+        commit_phase_commits: vec![],
+        commit_pow_witnesses: vec![],
+        query_proofs: vec![QueryProof {
+            input_proof: vec![BatchOpening::new(vec![], proof)],
+            commit_phase_openings: vec![],
+        }],
+        final_poly: vec![],
+        query_pow_witness: F::ZERO,
+    }
+}
+
+struct A2;
+impl Scheme for A2 {
+    type IM = Mmcs2;
+    const SALT: usize = 0;
+    fn inner(cap_height: usize, _seed: u64) -> Mmcs2 {
+        let perm = default_koalabear_poseidon2_16();
+        Mmcs2::new(Hash16::new(perm.clone()), Compress2::new(perm), cap_height)
+    }
+    fn split(p: &Vec<Digest>) -> (Vec<Vec<F>>, Vec<Digest>) {
+        (vec![], p.clone())
+    }
+    fn join(_salts: &[Vec<F>], siblings: &[Digest]) -> Vec<Digest> {
+        siblings.to_vec()
+    }
+    fn perm_config() -> Poseidon2Config {
+        Poseidon2Config::KOALA_BEAR_D4_W16
+    }
+    fn enable(b: &mut CircuitBuilder<CF>) {
+        b.enable_poseidon2_perm::<KoalaBearD4Width16, _>(
+            generate_poseidon2_trace::<CF, KoalaBearD4Width16>,
+            default_koalabear_poseidon2_16(),
+        );
+        b.enable_recompose::<F>(generate_recompose_trace::<F, CF>);
+    }
+    fn verify_circuit(
+        b: &mut CircuitBuilder<CF>,
+        cap: &[Vec<Target>],
+        dims: &[Dimensions],
+        bits: &[Target],
+        opened: &[Vec<Target>],
+        _salts: &[Vec<Target>],
+        ext: bool,
+    ) -> Result<Vec<NonPrimitiveOpId>, CircuitBuilderError> {
+        if ext {
+            verify_batch_circuit_from_extension_opened::<F, CF>(
+                b,
+                Self::perm_config(),
+                cap,
+                dims,
+                bits,
+                opened,
+                None,
+            )
+        } else {
+            verify_batch_circuit::<F, CF>(b, Self::perm_config(), cap, dims, bits, opened, None)
+        }
+    }
+    fn set_private(
+        r: &mut CircuitRunner<'_, CF>,
+        op_ids: &[NonPrimitiveOpId],
+        _salts: &[Vec<F>],
+        siblings: &[Digest],
+    ) -> Result<(), &'static str> {
+        let fri = wrap_fri::<Mmcs2>(siblings.to_vec());
+        set_fri_mmcs_private_data::<F, CF, ExtensionMmcs<F, CF, Mmcs2>, Mmcs2, Hash16, Compress2, DIGEST>(
+            r,
+            op_ids,
+            &fri,
+            Self::perm_config(),
+        )
+    }
+}
+
+struct A2H<const S: usize>;
+impl<const S: usize> Scheme for A2H<S> {
+    type IM = HMmcs2<S>;
+    const SALT: usize = S;
+    fn inner(cap_height: usize, seed: u64) -> HMmcs2<S> {
+        let perm = default_koalabear_poseidon2_16();
+        HMmcs2::<S>::new(
+            Hash16::new(perm.clone()),
+            Compress2::new(perm),
+            cap_height,
+            SmallRng::seed_from_u64(0xC08 ^ seed.wrapping_mul(0x9E37_79B9_7F4A_7C15)),
+        )
+    }
+    fn split(p: &(Vec<Vec<F>>, Vec<Digest>)) -> (Vec<Vec<F>>, Vec<Digest>) {
+        p.clone()
+    }
+    fn join(salts: &[Vec<F>], siblings: &[Digest]) -> (Vec<Vec<F>>, Vec<Digest>) {
+        (salts.to_vec(), siblings.to_vec())
+    }
+    fn perm_config() -> Poseidon2Config {
+        Poseidon2Config::KOALA_BEAR_D4_W16
+    }
+    fn enable(b: &mut CircuitBuilder<CF>) {
+        A2::enable(b)
+    }
+    fn verify_circuit(
+        b: &mut CircuitBuilder<CF>,
+        cap: &[Vec<Target>],
+        dims: &[Dimensions],
+        bits: &[Target],
+        opened: &[Vec<Target>],
+        salts: &[Vec<Target>],
+        ext: bool,
+    ) -> Result<Vec<NonPrimitiveOpId>, CircuitBuilderError> {
+        if ext {
+            verify_batch_circuit_from_extension_opened::<F, CF>(
+                b,
+                Self::perm_config(),
+                cap,
+                dims,
+                bits,
+                opened,
+                Some(salts),
+            )
+        } else {
+            verify_batch_circuit::<F, CF>(
+                b,
+                Self::perm_config(),
+                cap,
+                dims,
+                bits,
+                opened,
+                Some(salts),
+            )
+        }
+    }
+    fn set_private(
+        r: &mut CircuitRunner<'_, CF>,
+        op_ids: &[NonPrimitiveOpId],
+        salts: &[Vec<F>],
+        siblings: &[Digest],
+    ) -> Result<(), &'static str> {
+        let fri = wrap_fri::<HMmcs2<S>>((salts.to_vec(), siblings.to_vec()));
+        set_salted_fri_mmcs_private_data::<F, CF, ExtensionMmcs<F, CF, HMmcs2<S>>, HMmcs2<S>, DIGEST>(
+            r,
+            op_ids,
+            &fri,
+            Self::perm_config(),
+        )
+    }
+}
+
+struct A4;
+impl Scheme for A4 {
+    type IM = Mmcs4;
+    const SALT: usize = 0;
+    fn inner(cap_height: usize, _seed: u64) -> Mmcs4 {
+        let perm = default_koalabear_poseidon2_32();
+        Mmcs4::new(Hash32::new(perm.clone()), Compress4::new(perm), cap_height)
+    }
+    fn split(p: &Vec<Digest>) -> (Vec<Vec<F>>, Vec<Digest>) {
+        (vec![], p.clone())
+    }
+    fn join(_salts: &[Vec<F>], siblings: &[Digest]) -> Vec<Digest> {
+        siblings.to_vec()
+    }
+    fn perm_config() -> Poseidon2Config {
+        Poseidon2Config::KOALA_BEAR_D4_W32
+    }
+    fn enable(b: &mut CircuitBuilder<CF>) {
+        b.enable_poseidon2_perm_width_32::<KoalaBearD4Width32, _>(
+            generate_poseidon2_trace::<CF, KoalaBearD4Width32>,
+            default_koalabear_poseidon2_32(),
+        );
+        b.enable_recompose::<F>(generate_recompose_trace::<F, CF>);
+    }
+    fn verify_circuit(
+        b: &mut CircuitBuilder<CF>,
+        cap: &[Vec<Target>],
+        dims: &[Dimensions],
+        bits: &[Target],
+        opened: &[Vec<Target>],
+        _salts: &[Vec<Target>],
+        ext: bool,
+    ) -> Result<Vec<NonPrimitiveOpId>, CircuitBuilderError> {
+        if ext {
+            verify_batch_circuit_from_extension_opened_arity4::<F, CF>(
+                b,
+                Self::perm_config(),
+                cap,
+                dims,
+                bits,
+                opened,
+            )
+        } else {
+            verify_batch_circuit_arity4::<F, CF>(b, Self::perm_config(), cap, dims, bits, opened)
+        }
+    }
+    fn set_private(
+        r: &mut CircuitRunner<'_, CF>,
+        op_ids: &[NonPrimitiveOpId],
+        _salts: &[Vec<F>],
+        siblings: &[Digest],
+    ) -> Result<(), &'static str> {
+        let fri = wrap_fri::<Mmcs4>(siblings.to_vec());
+        set_fri_mmcs_private_data_arity4::<F, CF, ExtensionMmcs<F, CF, Mmcs4>, Mmcs4, DIGEST>(
+            r,
+            op_ids,
+            &fri,
+            Self::perm_config(),
+        )
+    }
+}
+
+// ---------------------------------------------------------------------------------------
+// shapes
+
+#[derive(Clone, Copy, Debug, PartialEq, Eq, PartialOrd, Ord, Serialize, Deserialize)]
+enum Cfg {
+    /// arity 2, base leaves, non-hiding
+    A2B,
+    /// arity 2, extension leaves, non-hiding
+    A2E,
+    /// arity 2, base leaves, hiding, 4 salt words per leaf
+    A2BH4,
+    /// arity 2, extension leaves, hiding, 4 salt words
+    A2EH4,
+    /// arity 2, base leaves, hiding, 3 salt words (salt not aligned to the extension degree)
+    A2BH3,
+    /// arity 2, extension leaves, hiding, 3 salt words
+    A2EH3,
+    /// arity 4 (W32), base leaves
+    A4B,
+    /// arity 4 (W32), extension leaves
+    A4E,
+}
+impl Cfg {
+    fn ext(self) -> bool {
+        matches!(self, Cfg::A2E | Cfg::A2EH4 | Cfg::A2EH3 | Cfg::A4E)
+    }
+    fn name(self) -> &'static str {
+        match self {
+            Cfg::A2B => "A2B",
+            Cfg::A2E => "A2E",
+            Cfg::A2BH4 => "A2BH4",
+            Cfg::A2EH4 => "A2EH4",
+            Cfg::A2BH3 => "A2BH3",
+            Cfg::A2EH3 => "A2EH3",
+            Cfg::A4B => "A4B",
+            Cfg::A4E => "A4E",
+        }
+    }
+}
+
+#[derive(Clone, Debug, PartialEq, Eq, PartialOrd, Ord, Serialize, Deserialize)]
+struct Shape {
+    cfg: Cfg,
+    /// (height, width) per matrix, in commit order; width counts leaf-field elements
+    dims: Vec<(usize, usize)>,
+    cap_height: usize,
+}
+impl Shape {
+    fn max_height(&self) -> usize {
+        self.dims.iter().map(|d| d.0).max().unwrap()
+    }
+    fn show(&self) -> String {
+        format!(
+            "{} cap={} dims={}",
+            self.cfg.name(),
+            self.cap_height,
+            self.dims.iter().map(|(h, w)| format!("{h}x{w}")).collect::<Vec<_>>().join(",")
+        )
+    }
+    /// simplest-first order used to pick the canonical minimal violating case
+    fn size_key(&self) -> (usize, usize, usize, usize, Vec<(usize, usize)>) {
+        (
+            self.dims.len(),
+            self.max_height(),
+            self.dims.iter().map(|d| d.1).sum(),
+            self.cap_height,
+            self.dims.clone(),
+        )
+    }
+    /// rough cost estimate (runs), for heavy-first scheduling
+    fn cost(&self) -> usize {
+        let coeffs = if self.cfg.ext() { D } else { 1 };
+        let w: usize = self.dims.iter().map(|d| d.1 * coeffs + 4).sum();
+        self.max_height() * (w + 8 * log2_ceil_usize(self.max_height()) + 16)
+    }
+}
+
+const WIDTHS: [usize; 4] = [1, 3, 8, 9];
+
+/// The explicit finite list of dimension vectors.
+fn dimension_vectors(quick: bool) -> Vec<Vec<(usize, usize)>> {
+    let mut out: Vec<Vec<(usize, usize)>> = vec![];
+    if quick {
+        // one matrix: every height × every width
+        for h in [1, 2, 4, 8, 16, 32] {
+            for w in WIDTHS {
+                out.push(vec![(h, w)]);
+            }
+        }
+        // two matrices, every ordered height pair over {1,2,4,8,16}: equal heights × all 16
+        // width pairs (one concatenated leaf, every way of straddling the rate), different
+        // heights × 4 width pairs (hashed separately, widths independent)
+        let hs = [1usize, 2, 4, 8, 16];
+        for &h1 in &hs {
+            for &h2 in &hs {
+                if h1 == h2 {
+                    for w1 in WIDTHS {
+                        for w2 in WIDTHS {
+                            out.push(vec![(h1, w1), (h2, w2)]);
+                        }
+                    }
+                } else {
+                    for (w1, w2) in [(1, 3), (3, 9), (8, 1), (9, 8)] {
+                        out.push(vec![(h1, w1), (h2, w2)]);
+                    }
+                }
+            }
+        }
+        for (h1, h2) in [(32, 2), (2, 32), (32, 16)] {
+            out.push(vec![(h1, 3), (h2, 9)]);
+        }
+        // non-power-of-two heights admitted by the native scheme (ceil(max/2^k) ladder)
+        out.push(vec![(5, 2), (3, 3)]);
+        out.push(vec![(3, 9)]);
+        out.push(vec![(6, 8)]);
+        return out;
+    }
+    let hs = [1usize, 2, 4, 8, 16, 32];
+    // 1 matrix: everything
+    for &h in &hs {
+        for w in WIDTHS {
+            out.push(vec![(h, w)]);
+        }
+    }
+    // 2 matrices: every ordered height pair; equal heights × all 16 width pairs (concatenated
+    // leaf), different heights × 4 width pairs (hashed separately, widths independent)
+    for &h1 in &hs {
+        for &h2 in &hs {
+            if h1 == h2 {
+                for w1 in WIDTHS {
+                    for w2 in WIDTHS {
+                        out.push(vec![(h1, w1), (h2, w2)]);
+                    }
+                }
+            } else {
+                for (w1, w2) in [(1, 3), (3, 9), (8, 1), (9, 8)] {
+                    out.push(vec![(h1, w1), (h2, w2)]);
+                }
+            }
+        }
+    }
+    // 3 matrices: every ordered height triple × 3 width triples
+    let wts = [(1, 3, 8), (9, 1, 3), (8, 9, 9)];
+    for &h1 in &hs {
+        for &h2 in &hs {
+            for &h3 in &hs {
+                for (w1, w2, w3) in wts {
+                    out.push(vec![(h1, w1), (h2, w2), (h3, w3)]);
+                }
+            }
+        }
+    }
+    // non-power-of-two heights on the ceil(max/2^k) ladder
+    for v in [
+        vec![(3, 1)],
+        vec![(3, 9)],
+        vec![(5, 3)],
+        vec![(6, 8)],
+        vec![(7, 9)],
+        vec![(5, 2), (3, 3)],
+        vec![(3, 16), (5, 8)],
+        vec![(6, 1), (3, 3)],
+        vec![(5, 8), (5, 3)],
+        vec![(7, 3), (4, 8), (2, 1)],
+        vec![(5, 9), (3, 1), (2, 8)],
+        vec![(12, 3), (6, 1), (3, 9)],
+        vec![(3, 9), (12, 1), (12, 8)],
+        vec![(24, 3), (6, 9)],
+    ] {
+        out.push(v);
+    }
+    // a leaf wider than the W32 rate (24 base elements) for the arity-4 sponge
+    out.push(vec![(8, 25)]);
+    out.push(vec![(16, 9), (16, 9), (16, 9)]);
+    out
+}
+
+fn configs(quick: bool) -> Vec<Cfg> {
+    if quick {
+        vec![Cfg::A2B, Cfg::A2E, Cfg::A2BH4, Cfg::A2EH4, Cfg::A4B, Cfg::A4E]
+    } else {
+        vec![
+            Cfg::A2B,
+            Cfg::A2E,
+            Cfg::A2BH4,
+            Cfg::A2EH4,
+            Cfg::A2BH3,
+            Cfg::A2EH3,
+            Cfg::A4B,
+            Cfg::A4E,
+        ]
+    }
+}
+
+fn shapes(quick: bool) -> Vec<Shape> {
+    let mut out = vec![];
+    for cfg in configs(quick) {
+        for dims in dimension_vectors(quick) {
+            for cap_height in 0..=2 {
+                out.push(Shape { cfg, dims: dims.clone(), cap_height });
+            }
+        }
+    }
+    out
+}
+
+// ---------------------------------------------------------------------------------------
+// openings and faults
+
+/// One (possibly faulted) opening, in a scheme-independent form. `opened` holds the flattened
+/// base-field coefficients of every opened row (D per element for extension leaves).
+#[derive(Clone, Debug)]
+struct Opening {
+    bits: Vec<bool>,
+    opened: Vec<Vec<F>>,
+    salts: Vec<Vec<F>>,
+    siblings: Vec<Digest>,
+    cap: Vec<Digest>,
+}
+impl Opening {
+    fn index(&self) -> usize {
+        self.bits.iter().enumerate().map(|(k, &b)| (b as usize) << k).sum()
+    }
+}
+
+#[derive(Clone, Copy, Debug, PartialEq, Eq, PartialOrd, Ord, Serialize, Deserialize)]
+enum Fault {
+    None,
+    /// base coefficient `j` of the opened row of matrix `m` += 1
+    Opened { m: usize, j: usize },
+    /// salt word `j` of matrix `m` += 1
+    Salt { m: usize, j: usize },
+    /// word `w` of sibling digest `s` += 1
+    Sibling { s: usize, w: usize },
+    /// index bit `k` flipped (native index and circuit direction bit alike)
+    Bit { k: usize },
+    /// word `w` of cap entry `c` += 1
+    Cap { c: usize, w: usize },
+}
+impl Fault {
+    fn class(&self) -> &'static str {
+        match self {
+            Fault::None => "honest",
+            Fault::Opened { .. } => "opened",
+            Fault::Salt { .. } => "salt",
+            Fault::Sibling { .. } => "sibling",
+            Fault::Bit { .. } => "bit",
+            Fault::Cap { .. } => "cap",
+        }
+    }
+}
+
+fn faults_of(o: &Opening) -> Vec<Fault> {
+    let mut v = vec![];
+    for (m, row) in o.opened.iter().enumerate() {
+        for j in 0..row.len() {
+            v.push(Fault::Opened { m, j });
+        }
+    }
+    for (m, s) in o.salts.iter().enumerate() {
+        for j in 0..s.len() {
+            v.push(Fault::Salt { m, j });
+        }
+    }
+    for s in 0..o.siblings.len() {
+        for w in 0..DIGEST {
+            v.push(Fault::Sibling { s, w });
+        }
+    }
+    for k in 0..o.bits.len() {
+        v.push(Fault::Bit { k });
+    }
+    for c in 0..o.cap.len() {
+        for w in 0..DIGEST {
+            v.push(Fault::Cap { c, w });
+        }
+    }
+    v
+}
+
+fn apply(o: &Opening, f: Fault) -> Opening {
+    let mut o = o.clone();
+    match f {
+        Fault::None => {}
+        Fault::Opened { m, j } => o.opened[m][j] += F::ONE,
+        Fault::Salt { m, j } => o.salts[m][j] += F::ONE,
+        Fault::Sibling { s, w } => o.siblings[s][w] += F::ONE,
+        Fault::Bit { k } => o.bits[k] = !o.bits[k],
+        Fault::Cap { c, w } => o.cap[c][w] += F::ONE,
+    }
+    o
+}
+
+// ---------------------------------------------------------------------------------------
+// native side
+
+fn mix(mut z: u64) -> u64 {
+    z = z.wrapping_add(0x9E37_79B9_7F4A_7C15);
+    z = (z ^ (z >> 30)).wrapping_mul(0xBF58_476D_1CE4_E5B9);
+    z = (z ^ (z >> 27)).wrapping_mul(0x94D0_49BB_1331_11EB);
+    z ^ (z >> 31)
+}
+/// Matrix entry: a deterministic function of (seed, matrix, row, column, coefficient).
+fn entry(seed: u64, m: usize, r: usize, c: usize, k: usize) -> F {
+    let z = mix(seed ^ mix(((m as u64) << 48) | ((r as u64) << 32) | ((c as u64) << 8) | k as u64));
+    F::from_u64(z % F::ORDER_U64)
+}
+
+fn ext_from(c: &[F]) -> CF {
+    CF::from_basis_coefficients_slice(c).expect("D coefficients")
+}
+
+fn p3_dims(shape: &Shape) -> Vec<Dimensions> {
+    shape.dims.iter().map(|&(height, width)| Dimensions { height, width }).collect()
+}
+
+/// Commit natively and open every index. Returns the cap and one honest opening per index.
+fn native_commit_open_all<S: Scheme>(shape: &Shape, seed: u64) -> Vec<Opening> {
+    let nbits = log2_ceil_usize(shape.max_height());
+    let bits_of = |i: usize| (0..nbits).map(|k| (i >> k) & 1 == 1).collect::<Vec<_>>();
+    let mut out = vec![];
+    if shape.cfg.ext() {
+        let mmcs = ExtensionMmcs::<F, CF, S::IM>::new(S::inner(shape.cap_height, seed));
+        let mats: Vec<RowMajorMatrix<CF>> = shape
+            .dims
+            .iter()
+            .enumerate()
+            .map(|(m, &(h, w))| {
+                let vals = (0..h * w)
+                    .map(|i| CF::from_basis_coefficients_fn(|k| entry(seed, m, i / w, i % w, k)))
+                    .collect();
+                RowMajorMatrix::new(vals, w)
+            })
+            .collect();
+        let (commit, pd) = mmcs.commit(mats);
+        let cap = commit.roots().to_vec();
+        for i in 0..shape.max_height() {
+            let (opened, proof) = mmcs.open_batch(i, &pd).unpack();
+            let (salts, siblings) = S::split(&proof);
+            out.push(Opening {
+                bits: bits_of(i),
+                opened: opened
+                    .iter()
+                    .map(|row| {
+                        row.iter()
+                            .flat_map(|e| {
+                                <CF as BasedVectorSpace<F>>::as_basis_coefficients_slice(e).to_vec()
+                            })
+                            .collect()
+                    })
+                    .collect(),
+                salts,
+                siblings,
+                cap: cap.clone(),
+            });
+        }
+    } else {
+        let mmcs = S::inner(shape.cap_height, seed);
+        let mats: Vec<RowMajorMatrix<F>> = shape
+            .dims
+            .iter()
+            .enumerate()
+            .map(|(m, &(h, w))| {
+                RowMajorMatrix::new((0..h * w).map(|i| entry(seed, m, i / w, i % w, 0)).collect(), w)
+            })
+            .collect();
+        let (commit, pd) = mmcs.commit(mats);
+        let cap = commit.roots().to_vec();
+        for i in 0..shape.max_height() {
+            let (opened, proof) = mmcs.open_batch(i, &pd).unpack();
+            let (salts, siblings) = S::split(&proof);
+            out.push(Opening { bits: bits_of(i), opened, salts, siblings, cap: cap.clone() });
+        }
+    }
+    out
+}
+
+struct NativeVerifier<S: Scheme> {
+    base: S::IM,
+    ext: ExtensionMmcs<F, CF, S::IM>,
+    is_ext: bool,
+    dims: Vec<Dimensions>,
+}
+impl<S: Scheme> NativeVerifier<S> {
+    fn new(shape: &Shape, seed: u64) -> Self {
+        Self {
+            base: S::inner(shape.cap_height, seed),
+            ext: ExtensionMmcs::new(S::inner(shape.cap_height, seed)),
+            is_ext: shape.cfg.ext(),
+            dims: p3_dims(shape),
+        }
+    }
+    /// Ok(()) = accepted, Err(variant name) = rejected
+    fn verify(&self, o: &Opening) -> Result<(), String> {
+        let commit = MerkleCap::<F, Digest>::new(o.cap.clone());
+        let proof = S::join(&o.salts, &o.siblings);
+        let r = if self.is_ext {
+            let opened: Vec<Vec<CF>> =
+                o.opened.iter().map(|row| row.chunks(D).map(ext_from).collect()).collect();
+            self.ext
+                .verify_batch(&commit, &self.dims, o.index(), BatchOpeningRef::new(&opened, &proof))
+                .map_err(|e| format!("{e:?}"))
+        } else {
+            self.base
+                .verify_batch(&commit, &self.dims, o.index(), BatchOpeningRef::new(&o.opened, &proof))
+                .map_err(|e| format!("{e:?}"))
+        };
+        r.map_err(|e| variant(&e))
+    }
+}
+
+/// first identifier of a Debug rendering (enum variant name)
+fn variant(s: &str) -> String {
+    s.chars().take_while(|c| c.is_alphanumeric() || *c == '_').collect()
+}
+
+// ---------------------------------------------------------------------------------------
+// circuit side
+
+/// Pack `D` lifted-base targets into one extension target (Σ t_i·X^i), as the repository's
+/// tests and `pack_lifted_to_ext` do for Merkle caps.
+fn pack_lifted_targets(b: &mut CircuitBuilder<CF>, lifted: &[Target]) -> Vec<Target> {
+    let basis: Vec<CF> = (0..D)
+        .map(|i| {
+            let mut c = [F::ZERO; D];
+            c[i] = F::ONE;
+            ext_from(&c)
+        })
+        .collect();
+    lifted
+        .chunks(D)
+        .map(|chunk| {
+            let mut acc = b.define_const(CF::ZERO);
+            for (i, &t) in chunk.iter().enumerate() {
+                let bc = b.define_const(basis[i]);
+                acc = b.mul_add(t, bc, acc);
+            }
+            acc
+        })
+        .collect()
+}
+
+struct Fixture {
+    circuit: Circuit<CF>,
+    op_ids: Vec<NonPrimitiveOpId>,
+    is_ext: bool,
+}
+
+/// Build the verification circuit for a shape. Public inputs, in order: opened values (matrix
+/// by matrix; base leaves as lifted `CF::from(v)`, extension leaves as the element itself),
+/// index bits (little-endian, asserted boolean as the FRI verifier does), cap (8 lifted words
+/// per entry). Private inputs: salt words, matrix by matrix.
+/// `Err` = the repository's API refused the shape at build time (unsupported).
+fn build_fixture<S: Scheme>(shape: &Shape, num_roots: usize) -> Result<Fixture, String> {
+    let mut b = CircuitBuilder::<CF>::new();
+    S::enable(&mut b);
+    let nbits = log2_ceil_usize(shape.max_height());
+    let opened: Vec<Vec<Target>> =
+        shape.dims.iter().map(|&(_, w)| (0..w).map(|_| b.public_input()).collect()).collect();
+    let bits = b.alloc_public_inputs(nbits, "index bits");
+    for &bit in &bits {
+        b.assert_bool(bit);
+    }
+    let cap: Vec<Vec<Target>> = (0..num_roots)
+        .map(|_| {
+            let lifted: Vec<Target> = (0..DIGEST).map(|_| b.public_input()).collect();
+            pack_lifted_targets(&mut b, &lifted)
+        })
+        .collect();
+    let salts: Vec<Vec<Target>> = if S::SALT > 0 {
+        shape.dims.iter().map(|_| b.alloc_private_inputs(S::SALT, "salt")).collect()
+    } else {
+        vec![]
+    };
+    let dims = p3_dims(shape);
+    let op_ids = S::verify_circuit(&mut b, &cap, &dims, &bits, &opened, &salts, shape.cfg.ext())
+        .map_err(|e| format!("verify_batch_circuit: {}", variant(&format!("{e:?}"))))?;
+    let circuit = b.build().map_err(|e| format!("build: {}", variant(&format!("{e:?}"))))?;
+    Ok(Fixture { circuit, op_ids, is_ext: shape.cfg.ext() })
+}
+
+/// Ok(()) = the runner produced traces (accepted); Err(stage:variant) = rejected.
+fn circuit_verdict<S: Scheme>(fx: &Fixture, o: &Opening) -> Result<(), String> {
+    let mut r = fx.circuit.runner();
+    let mut pubs: Vec<CF> = vec![];
+    for row in &o.opened {
+        if fx.is_ext {
+            pubs.extend(row.chunks(D).map(ext_from));
+        } else {
+            pubs.extend(row.iter().map(|&v| CF::from(v)));
+        }
+    }
+    pubs.extend(o.bits.iter().map(|&b| CF::from_bool(b)));
+    for entry in &o.cap {
+        pubs.extend(entry.iter().map(|&v| CF::from(v)));
+    }
+    r.set_public_inputs(&pubs).map_err(|e| format!("public:{}", variant(&format!("{e:?}"))))?;
+    if S::SALT > 0 {
+        let privs: Vec<CF> = o.salts.iter().flatten().map(|&v| CF::from(v)).collect();
+        r.set_private_inputs(&privs)
+            .map_err(|e| format!("private:{}", variant(&format!("{e:?}"))))?;
+    }
+    S::set_private(&mut r, &fx.op_ids, &o.salts, &o.siblings)
+        .map_err(|e| format!("private_data:{e}"))?;
+    r.run().map(|_| ()).map_err(|e| format!("run:{}", variant(&format!("{e:?}"))))
+}
+
+// ---------------------------------------------------------------------------------------
+// per-shape engine
+
+#[derive(Clone, Debug)]
+struct Disagreement {
+    clause: &'static str,
+    shape: Shape,
+    index: usize,
+    fault: Fault,
+    native: String,
+    circuit: String,
+}
+
+#[derive(Default)]
+struct Stats {
+    shapes_done: AtomicU64,
+    shapes_unsupported: AtomicU64,
+    shapes_build_panic: AtomicU64,
+    shapes_not_admitted_by_native: AtomicU64,
+    shapes_cut_by_budget: AtomicU64,
+    evaluations: AtomicU64,
+    honest: AtomicU64,
+    nontrivial: AtomicU64,
+    out_of_time: AtomicBool,
+}
+
+struct Engine<'a> {
+    ctx: &'a Ctx,
+    stats: Stats,
+    histo: Histo,
+    disagreements: Mutex<Vec<Disagreement>>,
+    samples: Mutex<Vec<Value>>,
+}
+
+fn verdict_str(r: &Result<(), String>) -> String {
+    match r {
+        Ok(()) => "accept".into(),
+        Err(e) => format!("reject({e})"),
+    }
+}
+
+/// Evaluate one (opening, fault) on both sides. Returns (native, circuit) verdicts; a panic on
+/// either side is reported as a rejection tagged `panic`.
+fn evaluate<S: Scheme>(
+    nv: &NativeVerifier<S>,
+    fx: &Fixture,
+    honest: &Opening,
+    fault: Fault,
+) -> (Result<(), String>, Result<(), String>) {
+    let o = apply(honest, fault);
+    let n = quiet_catch(|| nv.verify(&o)).unwrap_or_else(|p| Err(format!("panic:{}", short(&p))));
+    let c = quiet_catch(|| circuit_verdict::<S>(fx, &o))
+        .unwrap_or_else(|p| Err(format!("panic:{}", short(&p))));
+    (n, c)
+}
+
+fn short(s: &str) -> String {
+    s.chars().take(120).collect()
+}
+
+fn run_shape<S: Scheme>(eng: &Engine<'_>, shape: &Shape) {
+    if eng.ctx.out_of_time() {
+        eng.stats.out_of_time.store(true, Ordering::Relaxed);
+        eng.stats.shapes_cut_by_budget.fetch_add(1, Ordering::Relaxed);
+        return;
+    }
+    let seed = eng.ctx.seed;
+    let openings = match quiet_catch(|| native_commit_open_all::<S>(shape, seed)) {
+        Ok(o) => o,
+        Err(p) => {
+            // the native scheme itself refuses to commit to this shape (e.g. an arity-4 tree over
+            // non-power-of-two heights whose cap layer is not a power of two): nothing to compare
+            eng.stats.shapes_not_admitted_by_native.fetch_add(1, Ordering::Relaxed);
+            eng.histo.add(&format!("native_commit_refuses:{}:{}", shape.cfg.name(), short(&p)));
+            return;
+        }
+    };
+    let num_roots = openings[0].cap.len();
+    let fx = match quiet_catch(|| build_fixture::<S>(shape, num_roots)) {
+        Ok(Ok(fx)) => fx,
+        Ok(Err(e)) => {
+            eng.stats.shapes_unsupported.fetch_add(1, Ordering::Relaxed);
+            eng.histo.add(&format!("unsupported:{}:{e}", shape.cfg.name()));
+            return;
+        }
+        Err(p) => {
+            eng.stats.shapes_build_panic.fetch_add(1, Ordering::Relaxed);
+            eng.histo.add(&format!("build_panic:{}:{}", shape.cfg.name(), short(&p)));
+            return;
+        }
+    };
+    let nv = NativeVerifier::<S>::new(shape, seed);
+    let mut local: BTreeMap<String, u64> = BTreeMap::new();
+    let mut evals = 0u64;
+    let mut nontrivial = 0u64;
+    let mut cut = false;
+    for (index, honest) in openings.iter().enumerate() {
+        if eng.ctx.out_of_time() {
+            cut = true;
+            break;
+        }
+        let mut cases = vec![Fault::None];
+        cases.extend(faults_of(honest));
+        for fault in cases {
+            let (n, c) = evaluate::<S>(&nv, &fx, honest, fault);
+            evals += 1;
+            if fault == Fault::None {
+                if let Err(e) = &n {
+                    machinery_error(&format!(
+                        "native verify_batch rejects its own honest opening: {} index {index}: {e}",
+                        shape.show()
+                    ));
+                }
+                eng.stats.honest.fetch_add(1, Ordering::Relaxed);
+            } else if n.is_err() {
+                nontrivial += 1;
+            }
+            let pair = match (n.is_ok(), c.is_ok()) {
+                (true, true) => "native_accept/circuit_accept",
+                (false, false) => "native_reject/circuit_reject",
+                (true, false) => "native_accept/circuit_reject",
+                (false, true) => "native_reject/circuit_accept",
+            };
+            *local.entry(format!("verdicts:{}:{}:{pair}", shape.cfg.name(), fault.class())).or_insert(0) += 1;
+            if let Err(e) = &c {
+                *local.entry(format!("circuit_error:{e}")).or_insert(0) += 1;
+            }
+            if let Err(e) = &n {
+                *local.entry(format!("native_error:{e}")).or_insert(0) += 1;
+            }
+            if n.is_ok() != c.is_ok() {
+                let clause = if fault == Fault::None {
+                    "honest_rejected"
+                } else if n.is_ok() {
+                    "native_accept_circuit_reject"
+                } else {
+                    "native_reject_circuit_accept"
+                };
+                let mut g = eng.disagreements.lock().unwrap();
+                if g.len() < 200_000 {
+                    g.push(Disagreement {
+                        clause,
+                        shape: shape.clone(),
+                        index,
+                        fault,
+                        native: verdict_str(&n),
+                        circuit: verdict_str(&c),
+                    });
+                }
+            }
+        }
+    }
+    for (k, v) in local {
+        eng.histo.add_n(&k, v);
+    }
+    eng.stats.evaluations.fetch_add(evals, Ordering::Relaxed);
+    eng.stats.nontrivial.fetch_add(nontrivial, Ordering::Relaxed);
+    if cut {
+        eng.stats.out_of_time.store(true, Ordering::Relaxed);
+        eng.stats.shapes_cut_by_budget.fetch_add(1, Ordering::Relaxed);
+    } else {
+        eng.stats.shapes_done.fetch_add(1, Ordering::Relaxed);
+    }
+    let mut s = eng.samples.lock().unwrap();
+    if s.len() < 6 && shape.dims.len() >= 2 && shape.cap_height == 1 {
+        let o = &openings[openings.len() - 1];
+        s.push(json!({
+            "shape": shape.show(),
+            "index": openings.len() - 1,
+            "num_roots": num_roots,
+            "siblings": o.siblings.len(),
+            "faults_per_index": faults_of(o).len(),
+            "mmcs_op_ids": fx.op_ids.len(),
+            "circuit_ops": fx.circuit.ops.len(),
+        }));
+    }
+}
+
+fn dispatch(eng: &Engine<'_>, shape: &Shape) {
+    match shape.cfg {
+        Cfg::A2B | Cfg::A2E => run_shape::<A2>(eng, shape),
+        Cfg::A2BH4 | Cfg::A2EH4 => run_shape::<A2H<4>>(eng, shape),
+        Cfg::A2BH3 | Cfg::A2EH3 => run_shape::<A2H<3>>(eng, shape),
+        Cfg::A4B | Cfg::A4E => run_shape::<A4>(eng, shape),
+    }
+}
+
+/// Re-run one stored case verbosely.
+fn replay_case<S: Scheme>(shape: &Shape, index: usize, fault: Fault, seed: u64) -> Option<Disagreement> {
+    let openings = native_commit_open_all::<S>(shape, seed);
+    let num_roots = openings[0].cap.len();
+    println!("shape {} num_roots={num_roots} siblings={}", shape.show(), openings[index].siblings.len());
+    let fx = match build_fixture::<S>(shape, num_roots) {
+        Ok(fx) => fx,
+        Err(e) => {
+            println!("  unsupported at build time: {e}");
+            return None;
+        }
+    };
+    println!(
+        "  circuit: {} ops, {} MMCS op-id occurrences returned by verify_batch_circuit* (native proof has {} siblings)",
+        fx.circuit.ops.len(),
+        fx.op_ids.len(),
+        openings[index].siblings.len()
+    );
+    let nv = NativeVerifier::<S>::new(shape, seed);
+    let (hn, hc) = evaluate::<S>(&nv, &fx, &openings[index], Fault::None);
+    println!("  honest  index={index}: native={} circuit={}", verdict_str(&hn), verdict_str(&hc));
+    let (n, c) = evaluate::<S>(&nv, &fx, &openings[index], fault);
+    println!("  {fault:?} index={index}: native={} circuit={}", verdict_str(&n), verdict_str(&c));
+    (n.is_ok() != c.is_ok()).then(|| Disagreement {
+        clause: if fault == Fault::None {
+            "honest_rejected"
+        } else if n.is_ok() {
+            "native_accept_circuit_reject"
+        } else {
+            "native_reject_circuit_accept"
+        },
+        shape: shape.clone(),
+        index,
+        fault,
+        native: verdict_str(&n),
+        circuit: verdict_str(&c),
+    })
+}
+
+fn replay_dispatch(shape: &Shape, index: usize, fault: Fault, seed: u64) -> Option<Disagreement> {
+    match shape.cfg {
+        Cfg::A2B | Cfg::A2E => replay_case::<A2>(shape, index, fault, seed),
+        Cfg::A2BH4 | Cfg::A2EH4 => replay_case::<A2H<4>>(shape, index, fault, seed),
+        Cfg::A2BH3 | Cfg::A2EH3 => replay_case::<A2H<3>>(shape, index, fault, seed),
+        Cfg::A4B | Cfg::A4E => replay_case::<A4>(shape, index, fault, seed),
+    }
+}
+
+// ---------------------------------------------------------------------------------------
+// direct drive of the cap multiplexer through the hook
+
+/// For cap heights 0..=3: a circuit `selected = select_cap_entry(cap, bits); connect(selected,
+/// expected)`; every index × every choice of `expected` among the cap entries. Reference:
+/// accepted ⇔ expected == cap[index]. Returns (evaluations, violations as (key, what)).
+#[cfg(p3_recursion_verif)]
+fn mux_check(histo: &Histo) -> (u64, Vec<(String, String, Value)>) {
+    use p3_recursion::pcs::mmcs::verif_select_cap_entry;
+    let limbs = 2usize;
+    let mut evals = 0u64;
+    let mut bad = vec![];
+    for h in 0..=3usize {
+        let n = 1usize << h;
+        let mut b = CircuitBuilder::<CF>::new();
+        let cap: Vec<Vec<Target>> =
+            (0..n).map(|_| b.alloc_public_inputs(limbs, "cap").to_vec()).collect();
+        let bits = b.alloc_public_inputs(h, "bits");
+        let expected = b.alloc_public_inputs(limbs, "expected");
+        let sel = verif_select_cap_entry(&mut b, &cap, &bits);
+        for (s, e) in sel.iter().zip(&expected) {
+            b.connect(*s, *e);
+        }
+        let circuit = match b.build() {
+            Ok(c) => c,
+            Err(e) => machinery_error(&format!("mux circuit build failed: {e:?}")),
+        };
+        let cap_vals: Vec<Vec<CF>> = (0..n)
+            .map(|c| (0..limbs).map(|l| CF::from_basis_coefficients_fn(|k| entry(77, c, l, k, 0))).collect())
+            .collect();
+        for index in 0..n {
+            for exp in 0..n {
+                let mut pubs: Vec<CF> = cap_vals.iter().flatten().copied().collect();
+                pubs.extend((0..h).map(|k| CF::from_bool((index >> k) & 1 == 1)));
+                pubs.extend(cap_vals[exp].iter().copied());
+                let got = quiet_catch(|| {
+                    let mut r = circuit.runner();
+                    r.set_public_inputs(&pubs).is_ok() && r.run().is_ok()
+                })
+                .unwrap_or(false);
+                evals += 1;
+                let want = exp == index;
+                histo.add(&format!("mux:h{h}:{}", if got { "accept" } else { "reject" }));
+                if got != want {
+                    bad.push((
+                        format!("mux:cap_height={h}:index={index}:expected_entry={exp}"),
+                        format!(
+                            "select_cap_entry(cap of {n}, bits of index {index}) {} entry {exp}",
+                            if got { "equals" } else { "differs from" }
+                        ),
+                        json!({"mux": {"cap_height": h, "index": index, "expected_entry": exp}}),
+                    ));
+                }
+            }
+        }
+    }
+    (evals, bad)
+}
+#[cfg(not(p3_recursion_verif))]
+fn mux_check(_histo: &Histo) -> (u64, Vec<(String, String, Value)>) {
+    (0, vec![])
+}
+
+// ---------------------------------------------------------------------------------------
+
+/// Abstraction of a dimension vector used in violation keys: the distinct power-of-two-padded
+/// heights, tallest first (this is what determines the tree's level structure: where rows are
+/// injected and, for arity 4, where binary bridge levels appear). Widths, multiplicities,
+/// matrix order and the index are deliberately not part of the key; the replay file holds the
+/// simplest concrete case of the class.
+fn levels_of(shape: &Shape) -> String {
+    let mut hs: Vec<usize> = shape.dims.iter().map(|d| d.0.next_power_of_two()).collect();
+    hs.sort_unstable_by(|a, b| b.cmp(a));
+    hs.dedup();
+    hs.iter().map(|h| h.to_string()).collect::<Vec<_>>().join(">")
+}
+
+fn report_disagreements(report: &Report, ds: &[Disagreement]) {
+    // (1) Subsumption: when the HONEST opening of (shape, index) is already rejected by the
+    // circuit, every native-accepted fault at that (shape, index) is rejected for the same
+    // reason; only the honest case is reported.
+    let honest_bad: std::collections::BTreeSet<(&Shape, usize)> = ds
+        .iter()
+        .filter(|d| d.fault == Fault::None)
+        .map(|d| (&d.shape, d.index))
+        .collect();
+    // (2) One violation per (clause, scheme, fault class, level structure, cap height, verdict
+    // signatures). Replay = simplest concrete case of the class (fewest matrices, smallest
+    // height, smallest widths, lowest index, first fault).
+    let mut groups: BTreeMap<String, Vec<&Disagreement>> = BTreeMap::new();
+    for d in ds {
+        if d.fault != Fault::None && honest_bad.contains(&(&d.shape, d.index)) {
+            continue;
+        }
+        let key = if d.fault == Fault::None {
+            format!(
+                "honest_rejected:{}:levels={}:cap={}:{}",
+                d.shape.cfg.name(),
+                levels_of(&d.shape),
+                d.shape.cap_height,
+                d.circuit
+            )
+        } else {
+            format!(
+                "{}:{}:{}:levels={}:cap={}:native {}/circuit {}",
+                d.clause,
+                d.shape.cfg.name(),
+                d.fault.class(),
+                levels_of(&d.shape),
+                d.shape.cap_height,
+                d.native,
+                d.circuit
+            )
+        };
+        groups.entry(key).or_default().push(d);
+    }
+    for (key, mut v) in groups {
+        v.sort_by_key(|d| (d.shape.size_key(), d.index, d.fault));
+        let d = v[0];
+        let what = format!(
+            "{} index {} fault {:?}: native {} but circuit {}",
+            d.shape.show(),
+            d.index,
+            d.fault,
+            d.native,
+            d.circuit,
+        );
+        let replay = json!({"shape": d.shape, "index": d.index, "fault": d.fault});
+        for _ in 0..v.len() {
+            report.violation(key.clone(), what.clone(), replay.clone());
+        }
+    }
+}
+
 fn main() {
-    eprintln!("MACHINERY-ERROR: check c08 not built yet");
-    std::process::exit(2);
+    vpcore::install_quiet_panic_hook();
+    let ctx = Ctx::from_args("C08", "fault_enumeration");
+    let report = Report::new();
+
+    if let Some(path) = &ctx.replay {
+        let r = vpcore::load_replay(path);
+        if r.get("mux").is_some() {
+            let h = Histo::new();
+            let (evals, bad) = mux_check(&h);
+            for (k, w, rp) in bad {
+                println!("  {w}");
+                report.violation(k, w, rp);
+            }
+            let cov = json!({"evaluations": evals, "distinct_nontrivial": evals, "rule": "replay of the mux check", "samples": [r], "replay": true});
+            finish(&ctx, cov, vec![], &report);
+        }
+        let shape: Shape = vpcore::serde_json::from_value(r["shape"].clone())
+            .unwrap_or_else(|e| machinery_error(&format!("bad replay shape: {e}")));
+        let index = r["index"].as_u64().unwrap_or(0) as usize;
+        let fault: Fault = vpcore::serde_json::from_value(r["fault"].clone())
+            .unwrap_or_else(|e| machinery_error(&format!("bad replay fault: {e}")));
+        if let Some(d) = replay_dispatch(&shape, index, fault, ctx.seed) {
+            report_disagreements(&report, &[d]);
+        }
+        let cov = json!({"evaluations": 2, "distinct_nontrivial": 2, "rule": "replay of one stored case (honest + fault)", "samples": [r], "replay": true});
+        finish(&ctx, cov, vec![], &report);
+    }
+
+    let quick = ctx.quick();
+    let mut all = shapes(quick);
+    if let Some(c) = ctx.opt("cfg") {
+        all.retain(|s| s.cfg.name() == c);
+    }
+    if let Some(m) = ctx.opt("max_mats").and_then(|s| s.parse::<usize>().ok()) {
+        all.retain(|s| s.dims.len() <= m);
+    }
+    let total_shapes = all.len();
+    // heavy shapes first: the tail of the parallel loop is then made of cheap shapes
+    all.sort_by_key(|s| std::cmp::Reverse(s.cost()));
+
+    let eng = Engine {
+        ctx: &ctx,
+        stats: Stats::default(),
+        histo: Histo::new(),
+        disagreements: Mutex::new(vec![]),
+        samples: Mutex::new(vec![]),
+    };
+
+    let (mux_evals, mux_bad) = mux_check(&eng.histo);
+    for (k, w, rp) in mux_bad {
+        report.violation(k, w, rp);
+    }
+
+    all.par_iter().with_max_len(1).for_each(|s| dispatch(&eng, s));
+
+    let ds = eng.disagreements.lock().unwrap().clone();
+    report_disagreements(&report, &ds);
+
+    let mut bad_shapes: BTreeMap<String, u64> = BTreeMap::new();
+    for d in &ds {
+        *bad_shapes.entry(format!("{} [{}]", d.shape.show(), d.clause)).or_insert(0) += 1;
+    }
+    if ctx.opt("verbose").is_some() {
+        for (s, n) in &bad_shapes {
+            println!("  disagreeing shape: {s} × {n}");
+        }
+    }
+
+    let st = &eng.stats;
+    let evaluations =st.evaluations.load(Ordering::Relaxed) + mux_evals;
+    let nontrivial = st.nontrivial.load(Ordering::Relaxed);
+    let h = eng.histo.to_json();
+    let sum_pair = |pair: &str| -> u64 {
+        h.as_object()
+            .map(|m| {
+                m.iter()
+                    .filter(|(k, _)| k.starts_with("verdicts:") && k.ends_with(pair))
+                    .map(|(_, v)| v.as_u64().unwrap_or(0))
+                    .sum()
+            })
+            .unwrap_or(0)
+    };
+    let aa = sum_pair("native_accept/circuit_accept");
+    let rr = sum_pair("native_reject/circuit_reject");
+    let ar = sum_pair("native_accept/circuit_reject");
+    let ra = sum_pair("native_reject/circuit_accept");
+    println!(
+        "C08 shapes: listed {total_shapes}, fully enumerated {}, unsupported {}, build panics {}, native refuses to commit {}, cut by budget {}",
+        st.shapes_done.load(Ordering::Relaxed),
+        st.shapes_unsupported.load(Ordering::Relaxed),
+        st.shapes_build_panic.load(Ordering::Relaxed),
+        st.shapes_not_admitted_by_native.load(Ordering::Relaxed),
+        st.shapes_cut_by_budget.load(Ordering::Relaxed),
+    );
+    println!(
+        "C08 evaluations {evaluations} (honest {}, faults native rejects {nontrivial}); verdict pairs: accept/accept {aa}, reject/reject {rr}, native_accept/circuit_reject {ar}, native_reject/circuit_accept {ra}; mux {mux_evals}",
+        st.honest.load(Ordering::Relaxed)
+    );
+    // The differential is meaningless if one verdict never occurs on a side.
+    if ds.is_empty() && (aa == 0 || rr == 0) && ctx.opt("cfg").is_none() {
+        machinery_error(&format!("degenerate run: accept/accept={aa}, reject/reject={rr}"));
+    }
+    let exhaustive = !st.out_of_time.load(Ordering::Relaxed)
+        && ctx.opt("cfg").is_none()
+        && ctx.opt("max_mats").is_none();
+
+    let cov = json!({
+        "evaluations": evaluations,
+        "distinct_nontrivial": nontrivial,
+        "rule": "cases are enumerated, not sampled: every (shape, leaf index, single fault) of the explicit shape list; all triples are distinct by construction; a case is non-trivial when the fault makes the NATIVE verifier reject (faults the native verifier ignores — untouched cap entries, rows of matrices above the cap layer — and honest openings are counted separately in verdict_pairs.accept_accept)",
+        "samples": *eng.samples.lock().unwrap(),
+        "exhaustive": exhaustive,
+        "shapes_listed": total_shapes,
+        "shapes_fully_enumerated": st.shapes_done.load(Ordering::Relaxed),
+        "shapes_unsupported_by_api_at_build_time": st.shapes_unsupported.load(Ordering::Relaxed),
+        "shapes_build_panic": st.shapes_build_panic.load(Ordering::Relaxed),
+        "shapes_native_commit_refuses": st.shapes_not_admitted_by_native.load(Ordering::Relaxed),
+        "shapes_cut_by_budget": st.shapes_cut_by_budget.load(Ordering::Relaxed),
+        "honest_openings": st.honest.load(Ordering::Relaxed),
+        "verdict_pairs": {"accept_accept": aa, "reject_reject": rr, "native_accept_circuit_reject": ar, "native_reject_circuit_accept": ra},
+        "mux_hook_evaluations": mux_evals,
+        "statically_unsupported": ["arity-4 × hiding: verify_batch_circuit_arity4 / _from_extension_opened_arity4 take no salts"],
+        "alphabet": {
+            "schemes": configs(quick).iter().map(|c| c.name()).collect::<Vec<_>>(),
+            "cap_heights": [0, 1, 2],
+            "dimension_vectors": dimension_vectors(quick).len(),
+            "widths": WIDTHS,
+            "faults": ["opened base coefficient +1", "salt word +1", "sibling digest word +1", "index bit flipped", "cap word +1"],
+        },
+        "histogram": h,
+        "raw_disagreements": ds.len(),
+        "disagreeing_shapes": bad_shapes.iter().take(60).map(|(s, n)| format!("{s} × {n}")).collect::<Vec<_>>(),
+    });
+    finish(
+        &ctx,
+        cov,
+        vec![
+            "native p3 MerkleTreeMmcs / MerkleTreeHidingMmcs / ExtensionMmcs (crates.io 0.6) is the specification".into(),
+            "circuit verdict = CircuitRunner::run() Ok/Err with the honest executors (no adversarial witness search); AIR-level soundness of the Poseidon2 table is C11/C13".into(),
+            "KoalaBear, quartic extension, Poseidon2 W16 (arity 2) and W32 (arity 4) only; value faults are +1 on one base-field word".into(),
+            "matrix contents and salts are a deterministic function of VERIF_SEED; the set of shapes/indices/faults does not depend on it".into(),
+        ],
+        &report,
+    );
 }
